@@ -356,6 +356,8 @@ pub fn materialise(text: &str, case: &serde_json::Value) -> String {
         return text.to_string();
     }
     let dir = std::env::temp_dir().join(format!("vcheck-imports-{}-{:?}", std::process::id(), std::thread::current().id()).replace(['(', ')'], ""));
+    // no file of an earlier case of this thread may be picked up by accident
+    let _ = std::fs::remove_dir_all(&dir);
     let _ = std::fs::create_dir_all(&dir);
     for (name, body) in files {
         // files may import further files of the same case
